@@ -17,7 +17,8 @@ contents read back through an independent raw sqlite3 connection):
   x delivery      Core ``returning(..., sort_by_parameter_order=True|False)``,
                   ``return_defaults`` (inserted_primary_key_rows / returned_defaults_rows),
                   plain executemany, SQLite upsert (do_nothing, do_update from excluded,
-                  do_update with a bound parameter) on non-conflicting rows, ORM
+                  do_update with a bound parameter, do_update with a SQL function over 2-4
+                  bound literals) on non-conflicting rows, ORM
                   ``session.add_all`` + flush with heterogeneous key sets, ORM bulk
                   ``session.execute(insert(Cls).returning(...), [dict...])``, and ORM object
                   graphs whose flush *uses* the returned keys: joined-table inheritance
@@ -92,9 +93,9 @@ META = {
 }
 
 STYLES = ("autoinc", "uuid_pk", "expl_sentinel", "col_sentinel", "composite", "client_int_pk", "str_pk", "nopk",
-          "expl_sentinel_min")
-FORMS = ("ret", "ret", "ret", "retdef", "plain", "ups_nothing", "ups_excluded", "ups_bound", "orm_add", "orm_bulk",
-         "ups_rowbind")
+          "expl_sentinel_min", "autoinc_min", "uuid_pk_min")
+FORMS = ("ret", "ret", "ret", "retdef", "plain", "ups_nothing", "ups_excluded", "ups_bound", "ups_func", "ups_func", "orm_add",
+         "orm_bulk", "ups_rowbind")
 
 
 class HookCtl:
@@ -158,6 +159,10 @@ class HookCtl:
         sa.event.listen(engine, "before_cursor_execute", before_cursor_execute, retval=True)
 
 
+# mechanisms decided by the statement text alone (same defect with or without hooks)
+HOOK_INDEPENDENT = {"insertmanyvalues-values-text-replaced-outside-values-clause"}
+
+
 def hook_begin(ctx, eng, rng, desc):
     """choose this case's hook policy (engines without hooks: None); returns a violation
     reporter that marks mechanisms observed while hooks took over part of the execution"""
@@ -168,7 +173,9 @@ def hook_begin(ctx, eng, rng, desc):
     desc["hook_policy"] = ctl.policy
 
     def viol(mech, summary, witness=None):
-        if ctl.case_handled and ctl.case_declined:
+        if mech in HOOK_INDEPENDENT:
+            pass
+        elif ctl.case_handled and ctl.case_declined:
             mech += "-with-partly-handled-execution-hooks"
         elif ctl.case_handled:
             mech += "-with-execution-hooks"
@@ -234,6 +241,8 @@ def build_tables(sa, md, uuid, rng):
     tbl("uuid_pk", sa.Column("id", sa.Uuid, primary_key=True, default=uuid4))
     tbl("expl_sentinel", sa.Column("id", sa.Integer, primary_key=True), insert_sentinel("sent"))
     tbl("expl_sentinel_min", sa.Column("id", sa.Integer, primary_key=True), insert_sentinel("sent"))
+    tbl("autoinc_min", sa.Column("id", sa.Integer, primary_key=True))
+    tbl("uuid_pk_min", sa.Column("id", sa.Uuid, primary_key=True, default=uuid4))
     tbl("col_sentinel", sa.Column("id", sa.Integer, primary_key=True),
         sa.Column("s", sa.Uuid, default=uuid4, insert_sentinel=True))
     tbl("composite", sa.Column("a", sa.Integer, primary_key=True, autoincrement=False),
@@ -369,7 +378,7 @@ def run(ctx):
                 break
             style = STYLES[k % len(STYLES)]
             ps = PARAMSTYLES[(k // len(STYLES)) % len(PARAMSTYLES)]
-            form = FORMS[(k // 3) % len(FORMS)] if rng.random() < 0.7 else rng.choice(FORMS)
+            form = rng.choice(FORMS)   # (independent of the style / paramstyle cycles: every combination occurs)
             if form.startswith("orm") and style == "nopk":
                 form = "ret"
             sort = rng.random() < 0.7
@@ -729,13 +738,18 @@ def one_case(ctx, sa, orm, sqlite_dialect, spy, perm, eng, path, t, cls, toks, s
     try:
         with warnings.catch_warnings():
             warnings.simplefilter("ignore")
-            if form in ("ret", "retdef", "plain", "ups_nothing", "ups_excluded", "ups_bound"):
+            if form in ("ret", "retdef", "plain", "ups_nothing", "ups_excluded", "ups_bound", "ups_func"):
                 if form.startswith("ups"):
                     stmt = sqlite_dialect.insert(t)
                     if form == "ups_nothing":
                         stmt = stmt.on_conflict_do_nothing(index_elements=[t.c.p])
                     elif form == "ups_excluded":
                         stmt = stmt.on_conflict_do_update(index_elements=[t.c.p], set_={"d_srv": stmt.excluded.p})
+                    elif form == "ups_func":
+                        # a SQL function over 2-4 bound literals inside SET: "coalesce(?, ?)"
+                        lits = [f"f{i}-{prefix}" for i in range(rng.choice([2, 2, 3, 3, 4]))]
+                        desc["func_arity"] = len(lits)
+                        stmt = stmt.on_conflict_do_update(index_elements=[t.c.p], set_={"d_srv": sa.func.coalesce(*lits)})
                     else:
                         stmt = stmt.on_conflict_do_update(index_elements=[t.c.p], set_={"d_srv": "bound-" + prefix})
                 else:
@@ -790,7 +804,11 @@ def one_case(ctx, sa, orm, sqlite_dialect, spy, perm, eng, path, t, cls, toks, s
             else:
                 raise AssertionError(form)
     except Exception as e:  # the statement is valid: nothing may raise
-        viol(f"insert-raised-{type(e).__name__}", f"{desc} raised {e!r}"[:600], desc)
+        mech = f"insert-raised-{type(e).__name__}"
+        if isinstance(e, sa.exc.DBAPIError) and re.search(r"DO UPDATE SET [^\n]*\), \(", getattr(e, "statement", None) or str(e)):
+            # the multi-row VALUES expansion was also applied to text inside the DO UPDATE clause
+            mech = "insertmanyvalues-values-text-replaced-outside-values-clause"
+        viol(mech, f"{desc} raised {e!r}"[:800], desc)
         ctx.case(desc, nontrivial=False)
         hook_end(ctx, hooks)
         return
